@@ -115,3 +115,11 @@ Example C20_example :
       [Ch 50; Ch 46; Ch 49; Ch 46; Ch 49; Ch 46; Sp; Nl];                   (* "2.1.1. <line break>" *)
       [Ch 50; Ch 46; Ch 50; Ch 46; Sp] ].                                   (* "2.2. " *)
 Proof. split; [repeat constructor; cbn; discriminate|]. split; reflexivity. Qed.
+
+(* a heading with a hyperlink and a footnote: the entry shows the link's text, not its target, and no note *)
+Example C20_example_link_and_note :
+  let hs := [mkH 1 [HStr [Ch 83; Ch 101; Ch 101; Sp]; HLink [HSpan [HStr [Ch 115]]; HStr [Ch 105; Ch 116; Ch 101]]; HNote; HStr [Ch 33]]] in
+  in_domain hs /\
+  map (fun e => consume (snd e)) (tentries (fill (mkT None None []) hs))
+  = [[Ch 49; Ch 46; Sp; Ch 83; Ch 101; Ch 101; Sp; Ch 115; Ch 105; Ch 116; Ch 101; Ch 33]].     (* "1. See site!" *)
+Proof. split; [repeat constructor; cbn; discriminate|reflexivity]. Qed.
